@@ -26,6 +26,7 @@ requests (one per line)                                   reply
   dset <path> <name> <wf> <empty> <replace>                rule.style.setProperty(name, value, replace=…) / style[name] = value
   dsetobj <path> <name>                                    rule.style.setProperty(Property(name, value))
   ddel <path> <name>                                       rule.style.removeProperty(name) / del style[name]
+  dshareprop <path> <path> <i>                             rule.style.setProperty(<i-th Property object of the other rule's block>)
 
 items = `<name cps>:<wellformed 0|1>` joined by `,` (or `-`)
 
@@ -189,7 +190,9 @@ def dump (ds : DSt) : String :=
   let gone := (showRules ds live none st.gone).mergeSort (fun a b => a ≤ b)
   let held := (live ++ liveIdsL st.gone).map ds.style
   let gb := ((ds.goneB.eraseDups.filter (fun b => !held.contains b)).map (showBlock ds none)).mergeSort (fun a b => a ≤ b)
-  let gp := collapse ((ds.goneP.map (showProp ds none)).mergeSort (fun a b => a ≤ b))
+  let seen := held ++ ds.goneB
+  let gp := collapse (((ds.goneP.eraseDups.filter (fun p => !seen.any (fun b => (ds.bprops b).contains p))).map
+    (showProp ds none)).mergeSort (fun a b => a ≤ b))
   "enc=" ++ encCps (encodingOf st.rules) ++ " ns=" ++ showDict (nsDict st.rules) ++
     " rules=" ++ (if rules.isEmpty then "-" else ",".intercalate rules) ++
     " gone=" ++ (if gone.isEmpty then "-" else ";".intercalate gone) ++
@@ -223,6 +226,9 @@ def decDOp (ws : List String) : Option DOp :=
   | ["dsetobj", p, n] => match decPath p, decCps n with
     | some p, some n => some (.setPropObj p n)
     | _, _ => none
+  | ["dshareprop", p, q, i] => match decPath p, decPath q, i.toNat? with
+    | some p, some q, some i => some (.sharePropObj p q i)
+    | _, _, _ => none
   | ["ddel", p, n] => match decPath p, decCps n with
     | some p, some n => some (.removeProp p n)
     | _, _ => none
